@@ -139,11 +139,16 @@ def chk_split(c):
     kvx = bspline.make_knots(p, 0.0, 1.0, n)
     # single patch with a C^0 line at x = 0.5 (multiplicity p)
     kv_full = bspline.KnotVector(np.concatenate((np.repeat(0.0, p + 1), np.repeat(0.5, p), np.repeat(1.0, p + 1))), p)
-    kv_half = bspline.make_knots(p, 0.0, 1.0, 1)
+    kv_half = kv_half_r = bspline.make_knots(p, 0.0, 1.0, 1)
+    if c.get('hetero'):
+        # the two patches have different numbers of dofs across the interface (right patch: 3 spans): face indices of a patch
+        # depend on that patch's own sizes
+        kv_half_r = bspline.make_knots(p, 0.0, 1.0, 3)
+        kv_full = bspline.KnotVector(np.concatenate((np.repeat(0.0, p + 1), np.repeat(0.5, p), [0.5 + 1 / 6, 0.5 + 2 / 6], np.repeat(1.0, p + 1))), p)
     A_full = assemble.mass((kvx, kv_full)).toarray()
     gl = geometry.unit_square().scale((0.5, 1.0))
     gr = geometry.unit_square().scale((0.5, 1.0)).translate((0.5, 0.0))
-    patches = [((kvx, kv_half), gl), ((kvx, kv_half), gr)]
+    patches = [((kvx, kv_half), gl), ((kvx, kv_half_r), gr)]
     if c.get('swap'):
         patches = patches[::-1]
     mp = assemble.Multipatch(patches, automatch=c['auto'])
@@ -155,6 +160,14 @@ def chk_split(c):
         mp.finalize()
     n_glob = mp.numdofs
     assert n_glob == A_full.shape[0], 'glued space has %d dofs, undivided space %d' % (n_glob, A_full.shape[0])
+    # geometric gluing criterion: local dofs with the same global index sit at the same physical Greville point
+    where = {}
+    for k, (kvs, geo) in enumerate(patches):
+        G = np.asarray(geo.grid_eval([kv.greville() for kv in kvs])).reshape(-1, 2)
+        for i, gi in enumerate(np.asarray(mp.patch_to_global_idx(k))):
+            where.setdefault(int(gi), []).append(G[i])
+    for gi, pts in where.items():
+        assert all(np.allclose(q, pts[0], atol=1e-12) for q in pts), 'global dof %d glues dofs at different physical points %r' % (gi, [q.tolist() for q in pts])
     A = np.zeros((n_glob, n_glob))
     for k, (kvs, geo) in enumerate(patches):
         X = mp.patch_to_global(k)
@@ -341,6 +354,7 @@ def generate(tier, rng):
             for auto in (False, True):
                 for swap in (False, True):
                     yield 'split', {'p': p, 'n': n, 'auto': auto, 'swap': swap}
+                    yield 'split', {'p': p, 'n': n, 'auto': auto, 'swap': swap, 'hetero': True}
     for grid in ((2, 1), (2, 2), (3, 2)):
         k = grid[0] * grid[1]
         perms = list(itertools.permutations(range(k)))
